@@ -299,7 +299,15 @@ class _ClientContext(Generic[_T_Response]):
         try:
             match exc_val:
                 case BaseExceptionGroup():
-                    connection_errors, exc_val = exc_val.split(ClientClosedError)
+                    try:
+                        connection_errors, exc_val = exc_val.split(ClientClosedError)
+                    except Exception:
+                        # The group cannot be split (e.g. broken derive() or too deep): its own failure must not replace
+                        # the handler's error and reach the server's task group.
+                        if isinstance(exc_val, Exception):
+                            self.__log_exception(exc_val)
+                            return True
+                        return False
                     if connection_errors is not None:
                         self.__log_closed_client_errors(connection_errors)
                     match exc_val:
